@@ -3,6 +3,7 @@
 # -*- coding: utf-8 -*-
 
 import abc
+import base64
 import collections
 import itertools
 import enum
@@ -432,6 +433,10 @@ class ContentSecurityPolicySourceHashType(StringEnumHashParsableBase, enum.Enum)
     SHA2_512 = FieldHashTypeParams(code='sha512')
 
 
+def _decode_base64_data(value):
+    return Base64Data(base64.b64decode(value))
+
+
 @attr.s
 class ContentSecurityPolicySourceHash(ParsableBase, Serializable):
     hash_algorithm = attr.ib(validator=attr.validators.instance_of((Hash, six.string_types)))
@@ -450,7 +455,7 @@ class ContentSecurityPolicySourceHash(ParsableBase, Serializable):
         except InvalidValue as e:
             six.raise_from(InvalidType(), e)
 
-        parser.parse_string_until_separator_or_end('hash_value', ' ')
+        parser.parse_string_until_separator_or_end('hash_value', ' ', item_class=_decode_base64_data)
 
         return cls(parser['hash_algorithm'].hash_algorithm, parser['hash_value']), parser.parsed_length
 
@@ -487,7 +492,7 @@ class ContentSecurityPolicySourceNonce(ParsableBase, Serializable):
 
         del parser['prefix']
 
-        parser.parse_string_until_separator_or_end('value', ' ')
+        parser.parse_string_until_separator_or_end('value', ' ', item_class=_decode_base64_data)
 
         return cls(**parser), parser.parsed_length
 
